@@ -33,6 +33,16 @@ func c54(c *Ctx) {
 		c.Expect(!sel.Blocking && len(sel.States) == 1 && sel.States[0].Dir == types.RecvOnly, sel, f, "drain-is-non-blocking-receive", "the drain is not a non-blocking receive")
 		c.Expect(sel.States[0].Chan == snd.Chan, sel, f, "drain-and-send-same-channel", "the channel drained is not the channel sent to")
 		c.Dominates(sel, snd, "drain-before-send")
+		// whatever the drain removed, the new status is always queued afterwards: no path from the drain reaches the next
+		// watcher or the return without the send (a drained value that is not replaced leaves the watcher without its latest status)
+		c.MustPass("drain-always-followed-by-the-send", pathQuery{Fn: f, Starts: []ssa.Instruction{sel}, Barrier: func(in ssa.Instruction) bool { return in == ssa.Instruction(snd) },
+			Target: func(in ssa.Instruction) bool {
+				if isReturn(in) {
+					return true
+				}
+				_, isNext := in.(*ssa.Next)
+				return isNext
+			}}, snd)
 		c.ValueIs(snd, snd.X, "sends-the-new-status", ParamV("servingStatus"))
 		c.Expect(RangeValueOf(LookupOf(FieldLoad(hs("updates")), ParamV("service")))(snd.Chan), snd, f, "every-watcher-of-the-service", "the push does not go to the watchers registered for this service")
 		var ins ssa.Instruction
